@@ -150,6 +150,7 @@ func (w *World) observeServer() {
 		if h := w.hooks["srv.flush"]; h != nil {
 			h(s.Id())
 		}
+		w.g.at("S.flush", s.Id())
 	})
 	w.Srv.On("drain", func(a ...any) {
 		s := a[0].(engine.Socket)
@@ -157,6 +158,7 @@ func (w *World) observeServer() {
 		if h := w.hooks["srv.drain"]; h != nil {
 			h(s.Id())
 		}
+		w.g.at("S.drain", s.Id()) // server-level listeners also see the flush of the open packet, inside the session's constructor
 	})
 	w.Srv.On("initial_headers", func(a ...any) {
 		w.rec.Log("srv.initial_headers", "rid", w.ridOf(a[1].(*types.HttpContext)))
